@@ -99,6 +99,22 @@ func labCmd(args []string) error {
 		for _, t := range []float32{1, 0, 0.5, 0.18, 2, 0.001, float32(r0), 0.0088, 0.0089} {
 			emitLab(ciexyz.Color{X: t * w.X, Y: t * w.Y, Z: t * w.Z}, w, nil)
 		}
+		// near-neutral colours: a multiple of the white with one component off by a few parts in 10^5
+		// (true a*, b* between 1e-3 and 1e-2: not zero, and not to be rounded to zero)
+		for i := 0; i < 120; i++ {
+			t := 0.05 + 1.2*rng.Float32()
+			c := ciexyz.Color{X: t * w.X, Y: t * w.Y, Z: t * w.Z}
+			d := 1 + float32(1+rng.Intn(40))*1e-5*float32(1-2*(i%2))
+			switch i % 3 {
+			case 0:
+				c.X *= d
+			case 1:
+				c.Y *= d
+			case 2:
+				c.Z *= d
+			}
+			emitLab(c, w, nil)
+		}
 		// lattice over [-0.5, 2]^3
 		for i := 0; i < nl; i++ {
 			for j := 0; j < nl; j++ {
